@@ -82,7 +82,7 @@ static void case_c04(const drvargs_t *a,long id){
   else { N=rng_range(&r,4,a->thorough?250000:60000); ncls=2; if(rng_chance(&r,0.3)){ N=rng_range(&r,4,5000); } }
   static const int chs[]={1,2,1,2,3,6,8,2,1,4,5,7};
   c.channels=chs[rng_below(&r,12)];
-  if(a->thorough && id%40==7){ static const int big[]={16,64,255}; c.channels=big[rng_below(&r,3)]; if(N>6000)N=N%6000; }
+  if(id%40==7){ static const int big[]={16,64,255}; c.channels= rng_chance(&r,0.5)?big[rng_below(&r,3)]:(int)rng_range(&r,9,255); long cap=a->thorough?6000:3000; if(N>cap)N=N%cap; }   /* 9..255 channels in both tiers */
   c.rate=c04_rates[rng_below(&r,sizeof c04_rates/sizeof *c04_rates)];
   static const float qs[]={-0.1f,0.0f,0.3f,0.5f,0.7f,1.0f};
   c.quality=qs[rng_below(&r,6)]; if(rng_chance(&r,0.3)) c.quality=(float)(-0.1+1.1*rng_unit(&r));
@@ -106,7 +106,7 @@ static void case_c04(const drvargs_t *a,long id){
   if(biting) c.sig= rng_chance(&r,0.7)?SIG_NOISE:SIG_OVER;
   c.chunk=(int)rng_below(&r,CHUNK_NKINDS); if(c.chunk==CHUNK_1 && N>20000) c.chunk=CHUNK_RANDOM;
   c.lazy=(int)rng_below(&r,2);
-  if(c.channels>8 && N>6000){ N%=6000; c.nsamples=N; }
+  if(c.channels>8 && N>(a->thorough?6000:3000)){ N%=(a->thorough?6000:3000); c.nsamples=N; }
   if(id%16==5) c.refused_wrote=1+(int)rng_below(&r,3);   /* an over-long vorbis_analysis_wrote in mid-stream is refused and must not count */
   enccfg_json(&c,desc,sizeof desc);
   encres_t er; int ret=enc_run(&c,&er);
